@@ -95,6 +95,12 @@ def opOK (cfg : ChainCfg) : Op → Bool
 def cfgOK (cfg : ChainCfg) : Bool :=
   cfg.mint.module == cfg.disp.module && cfg.mint.ecoPool != cfg.disp.module
 
+/-- everything a transaction's trace paid out -/
+def paidAll : List (Key × Rec × Outcome) → Denom → Nat
+  | [], _ => 0
+  | (_, r, .paid) :: os, d => coinsGet r.coins d + paidAll os d
+  | (_, _, _) :: os, d => paidAll os d
+
 /-- the observable form (the failed *store* forgets overwritten entries, hence ≤):
     never more paid out, pending and failed for a key than was created for it;
     the completed store never shows more than was paid -/
